@@ -243,6 +243,97 @@ static void finish_case(Ctx& c, CaseRun& run) {
   }
 }
 
+// Iterators held across mutations of OTHER elements: an iterator keeps designating its element (same value, same key) across
+// later insertions and removals, and remove(iterator) removes exactly that element whatever happened around it.
+// (What ++ does on an iterator obtained before a mutation is not promised and is not used.)
+static void iters_case(Ctx& c, Rng& r) {
+  bool object = r.coin();
+  int n0 = (int)r.range(1, 12), steps = (int)r.range(3, 40);
+  std::string log = std::string(object ? "object" : "array") + " of " + std::to_string(n0) + ": ";
+  c.outcome(object ? "iters-object" : "iters-array");
+  SpyAllocator sa;
+  {
+    AJ::JsonDocument doc(&sa);
+    bool nested = r.coin();
+    AJ::JsonVariant host = nested ? doc["h"][1].to<AJ::JsonVariant>() : doc.to<AJ::JsonVariant>();
+    if (nested) doc["tail"] = "sibling";
+    std::vector<std::pair<std::string, long>> model;     // (key, value); keys unused for arrays
+    long next_val = 100; int next_key = 0;
+    auto fresh_key = [&]() { return "k" + std::to_string(next_key++); };
+    AJ::JsonArray arr; AJ::JsonObject obj;
+    if (object) { obj = host.to<AJ::JsonObject>(); for (int i = 0; i < n0; i++) { std::string k = fresh_key(); obj[k] = next_val; model.emplace_back(k, next_val++); } }
+    else { arr = host.to<AJ::JsonArray>(); for (int i = 0; i < n0; i++) { arr.add(next_val); model.emplace_back("", next_val++); } }
+    struct Held { AJ::JsonArray::iterator ai; AJ::JsonObject::iterator oi; long val; std::string key; };
+    std::vector<Held> held;
+    auto viol = [&](const std::string& cl, const std::string& d) { c.violation(cl, d, log); };
+    auto hold = [&](size_t pos) {
+      Held h; h.val = model[pos].second; h.key = model[pos].first; size_t i = 0;
+      if (object) { for (auto it = obj.begin(); it != obj.end(); ++it, ++i) if (i == pos) { h.oi = it; break; } }
+      else { for (auto it = arr.begin(); it != arr.end(); ++it, ++i) if (i == pos) { h.ai = it; break; } }
+      held.push_back(h);
+      log += "hold@" + std::to_string(pos) + "(" + std::to_string(h.val) + ") ";
+    };
+    auto check = [&]() -> bool {
+      size_t i = 0; bool ok = true;
+      if (object) {
+        if (obj.size() != model.size()) { viol("observable", "size() = " + std::to_string(obj.size()) + ", model " + std::to_string(model.size())); return false; }
+        for (AJ::JsonPair kv : obj) { if (i >= model.size() || model[i].first != kv.key().c_str() || kv.value().as<long>() != model[i].second) { ok = false; break; } i++; }
+      } else {
+        if (arr.size() != model.size()) { viol("observable", "size() = " + std::to_string(arr.size()) + ", model " + std::to_string(model.size())); return false; }
+        for (AJ::JsonVariant v : arr) { if (i >= model.size() || v.as<long>() != model[i].second) { ok = false; break; } i++; }
+      }
+      if (!ok || i != model.size()) { std::string s; AJ::serializeJson(host, s); std::string w; for (auto& e : model) w += (object ? e.first + ":" : "") + std::to_string(e.second) + ","; viol("document-differs-from-model", "collection is " + s + ", model " + w); return false; }
+      for (auto& h : held) {
+        long got = object ? h.oi->value().as<long>() : h.ai->as<long>();
+        if (got != h.val) { viol("reference-designates-other-value", "held iterator of element " + std::to_string(h.val) + " now reads " + std::to_string(got)); return false; }
+        if (object && h.key != h.oi->key().c_str()) { viol("reference-designates-other-value", "held iterator of member " + h.key + " now has key " + h.oi->key().c_str()); return false; }
+        c.count("held_iterator_reads");
+      }
+      Inspector::Snap s = Inspector::inspect(doc);
+      if (!s.ok) { viol("structure", s.error); return false; }
+      if (s.leaked && !doc.overflowed()) { viol("structure", std::to_string(s.leaked) + " slots neither reachable nor free"); return false; }
+      if (nested && (doc["tail"] != "sibling" || doc["h"][0].isNull() == false)) { viol("mutation-changed-other-value", "siblings of the host collection changed"); return false; }
+      return true;
+    };
+    auto drop_held = [&](long val) { for (size_t i = 0; i < held.size(); i++) if (held[i].val == val) { held.erase(held.begin() + (long)i); i--; } };
+    if (!check()) return;
+    for (int st = 0; st < steps; st++) {
+      unsigned w = (unsigned)r.below(100);
+      if (doc.overflowed()) break;
+      if (w < 25 && !model.empty() && held.size() < 4) hold((size_t)r.below(model.size()));
+      else if (w < 50) {   // append
+        if (object) { std::string k = fresh_key(); obj[k] = next_val; model.emplace_back(k, next_val); } else { arr.add(next_val); model.emplace_back("", next_val); }
+        log += "add(" + std::to_string(next_val++) + ") ";
+      } else if (w < 70 && !model.empty()) {   // remove by index / key (held iterators of that element die with it)
+        size_t pos = (size_t)r.below(model.size());
+        drop_held(model[pos].second);
+        if (object) obj.remove(model[pos].first); else arr.remove(pos);
+        log += "remove@" + std::to_string(pos) + " ";
+        model.erase(model.begin() + (long)pos);
+      } else if (w < 90 && !held.empty()) {   // remove through a held iterator
+        size_t hi = (size_t)r.below(held.size());
+        Held h = held[hi];
+        drop_held(h.val);
+        if (object) obj.remove(h.oi); else arr.remove(h.ai);
+        log += "remove(held " + std::to_string(h.val) + ") ";
+        for (size_t i = 0; i < model.size(); i++) if (model[i].second == h.val) { model.erase(model.begin() + (long)i); break; }
+        c.count("removals_through_held_iterators");
+      } else if (!model.empty()) {   // overwrite the value of an element in place (slot kept)
+        size_t pos = (size_t)r.below(model.size());
+        for (auto& h : held) if (h.val == model[pos].second) h.val = next_val;
+        if (object) obj[model[pos].first] = next_val; else arr[pos] = next_val;
+        log += "set@" + std::to_string(pos) + "(" + std::to_string(next_val) + ") ";
+        model[pos].second = next_val++;
+      }
+      if (!check()) return;
+    }
+    uint64_t h = fnv1a(log, 0xcbf29ce484222325ull); c.nontrivial(h);
+    if (c.want_sample()) c.sample(log.substr(0, 300));
+  }
+  if (!sa.live.empty()) c.violation("leak-after-destruction", "blocks live after destruction", log);
+  if (!sa.errors.empty()) c.violation("allocator-protocol", sa.errors[0], log);
+}
+
 // Very deep trees (deeper than any deserializer lets through: they can only come from API calls): every depth-dependent
 // observable against the model - nesting() at every level, size, traversal, both serializers and their measures,
 // deep copies into another document and into a nested member, equality, removal of the innermost levels.
@@ -356,6 +447,7 @@ static void deep_case(Ctx& c, Rng& r) {
 void vf_run_case(Ctx& c, uint64_t index) {
   Rng r(c.seed, 4, index);
   if (c.mode == "deep") { deep_case(c, r); return; }
+  if (c.mode == "iters") { iters_case(c, r); return; }
   if (c.mode.rfind("small", 0) == 0) {
     // decode index into a digit string of length 1..L
     uint64_t i = index, p = SMALL_A; int len = 1;
